@@ -16,6 +16,10 @@ CLAIMED = {
     text="_MetricCache.store is verified from source for every cache state, datapoint and limit setting: size never exceeds CACHE_SIZE_HARD_MAX, a refusal fires cacheOverflow exactly once and leaves the whole view (keys, contents, new_metrics, size) unchanged, a duplicate timestamp is updated even when full. conf.py's derivation of the limits and events.py's handlers are checked syntactically.",
     note="store's body is one lock region (A-GIL); MAX_CACHE_SIZE is +inf or a real >= 1; events modelled by their default handlers; bucketmax store() is covered in C17; A-ENGINE, A-SMT",
     tech=TECH),
+  'C12': dict(
+    text="MetricReceiver.metricReceived is verified from source on every path: a datapoint reaches events.metricReceived iff it is not blacklisted, not rejected by a non-empty whitelist and its value is not NaN; exactly -1 is replaced by the clock, MIN_TIMESTAMP_RESOLUTION rounds down to a multiple, name and value are passed unchanged; RegexList membership is verified with a loop invariant; a syntactic obligation shows all three listeners dispatch only through metricReceived.",
+    note="re.search is an uninterpreted predicate (which patterns match is an input, not modelled); timestamps finite here (non-finite ones are C11); floats as tagged reals (A-REAL); RegexList.read_list (file parsing) not under contract; A-ENGINE, A-SMT",
+    tech=TECH),
   'C20': dict(
     text="All four TokenBucket methods are verified from source against a potential-function invariant over reals for every state, cost, clock sequence and window start; the window bound rate*w + 2*burst is a lemma over that invariant; the blocking wait bound and the new-burst clause are postconditions.",
     note="floats as reals (A-REAL), monotone clock / sleep lasts at least d (A-CLOCK), single user thread per bucket, capacity > 0, rate > 0, cost >= 0; A-ENGINE, A-SMT",
